@@ -161,13 +161,82 @@ func Shuffle(ops []Op, t *sim.Tape) []Op {
 	return out
 }
 
+// decoy returns a call that sets the same field to a DIFFERENT value; placed
+// before the real call it is overwritten, so the final state is unchanged
+// (last write wins). Only plain setters have decoys, never list appends.
+func decoy(o Op) (Op, bool) {
+	d := o
+	switch o.Kind {
+	case "prop":
+		if o.ID == 0x0B {
+			return d, false
+		}
+		if o.B != nil {
+			d.B = append([]byte("decoy-"), o.B...)
+			if len(d.B) > 40 {
+				d.B = d.B[:40]
+			}
+		} else {
+			def := ref.Lookup(o.ID)
+			switch {
+			case def != nil && def.Kind == ref.KByte:
+				d.N = 1 - o.N&1
+			case def != nil && def.Kind == ref.KU16:
+				d.N = (o.N ^ 0x5a5a) & 0xffff
+			default:
+				d.N = o.N ^ 0x5a5a5a
+			}
+		}
+	case "packetid", "keepalive":
+		d.N = (o.N ^ 0x3c3c) & 0xffff
+	case "reason":
+		d.N = (o.N ^ 0x80) & 0xff
+	case "protover":
+		d.N = (o.N + 1) & 0xff
+	case "qos":
+		d.N = (o.N + 1) % 3
+	case "dup", "retain", "cleanstart", "sessionpresent":
+		d.Flag = !o.Flag
+	case "topic", "payload", "clientid", "username", "password", "protoname":
+		d.B = append([]byte("decoy"), o.B...)
+		if len(d.B) > 40 {
+			d.B = d.B[:40]
+		}
+	case "will":
+		w := *o.Will
+		w.QoS = (w.QoS + 1) % 3
+		w.Retain = !w.Retain
+		w.Topic = []byte("decoy/will")
+		w.Payload = []byte("decoy")
+		w.Props = nil
+		d.Will = &w
+	default:
+		return d, false
+	}
+	return d, true
+}
+
 // Build constructs the real packet for an abstract one through the public API,
-// applying the setters in a tape-chosen order.
+// applying the setters in a tape-chosen order. In one build out of three some
+// fields are first set to a different value and then overwritten (a packet "can
+// be built" by any setter sequence; the final state is what counts).
 func Build(a *ref.AP, t *sim.Tape) (mq.Packet, []Op, error) {
 	p := New(a.Type)
 	ops := OpsFor(a)
 	if t != nil {
 		ops = Shuffle(ops, t)
+		if t.Bool(1, 3) {
+			var out []Op
+			for _, o := range ops {
+				if d, ok := decoy(o); ok && t.Bool(1, 2) {
+					// the decoy goes somewhere before the real call
+					at := t.Int(len(out) + 1)
+					out = append(out[:at], append([]Op{d}, out[at:]...)...)
+				}
+				out = append(out, o)
+			}
+			ops = out
+		}
 	}
 	for _, o := range ops {
 		if err := Apply(p, o); err != nil {
